@@ -6,6 +6,7 @@ package main
 
 import (
 	"bytes"
+	"unicode/utf8"
 	"encoding/json"
 	"fmt"
 	"os"
@@ -426,7 +427,8 @@ func ferun(c *Ctx) {
 								continue
 							}
 							twin := d
-							twin.Name = d.Name[:1] + swapCase(d.Name[1:])
+							_, n0 := utf8.DecodeRuneInString(d.Name)
+							twin.Name = d.Name[:n0] + swapCase(d.Name[n0:])
 							if twin.Name == d.Name {
 								continue
 							}
